@@ -30,20 +30,19 @@ def knownRows : List (OpK × Kind × Cat) := [
   (.construct, .oneOf, .coll), (.construct, .oneOf, .inline), (.construct, .oneOf, .wrap),
   (.construct, .allOf, .coll), (.construct, .allOf, .inline), (.construct, .allOf, .wrap),
   (.setattr, .oneOf, .coll), (.setattr, .oneOf, .inline), (.setattr, .oneOf, .wrap),
-  (.setattr, .allOf, .coll), (.setattr, .allOf, .inline), (.setattr, .allOf, .wrap),
-  -- structure_to_schema puts a field's non-callable mutable default (keyword form `Array(..., default=[1, 2])`)
-  -- into the returned schema as it is
-  (.toSchema, .default, .any)]
+  (.setattr, .allOf, .coll), (.setattr, .allOf, .inline), (.setattr, .allOf, .wrap)]
 
 /-- rows that were findings of the first round and were repaired in typedpy: the `return value` short cuts
     of Array/Deque/Map.serialize (commit 5e8a8ad: fast serialization and `<field>.serialize` handed out the
-    stored collection) and the Set field without `items` (commit d7f6fe4: kept the caller's set) -/
+    stored collection) the Set field without `items` (commit d7f6fe4: kept the caller's set) and the schema default (commit c0c3c23) -/
 def fixedRows : List (OpK × Kind × Cat) := [
   (.fieldSerialize, .array, .number), (.fieldSerialize, .array, .string), (.fieldSerialize, .array, .untyped),
   (.fieldSerialize, .deque, .untyped), (.fieldSerialize, .map, .untyped),
   (.fastSerialize, .array, .number), (.fastSerialize, .array, .string), (.fastSerialize, .array, .untyped),
   (.fastSerialize, .deque, .untyped), (.fastSerialize, .map, .untyped),
-  (.construct, .set, .untyped), (.setattr, .set, .untyped)]
+  (.construct, .set, .untyped), (.setattr, .set, .untyped),
+  -- commit c0c3c23: structure_to_schema put a field's non-callable mutable default live into the schema
+  (.toSchema, .default, .any)]
 
 def isKnown (r : AliasRow) : Bool := knownRows.contains (r.op, r.kind, r.cat)
 
